@@ -11,8 +11,14 @@ def run(ctx):
     si = ctx.tlc("MCMetrics", "MCMetrics.icmp.cfg", name="MCMetrics.icmp", workers=4, timeout=900,
                  require_actions=("SessionOpen", "IcmpOpen", "IcmpEcho", "TunnelClose", "SessionClose"))
     ctx.spec_must_hold(si)
+    # half-closes by the destination on HTTP/2 tunnels: the connection (and its gauge) lives until the tunnel ends
+    sh = ctx.tlc("MCMetrics", "MCMetrics.half.cfg", name="MCMetrics.half", workers=4, timeout=900,
+                 require_actions=("SessionOpen", "TunnelOpen", "PeerHalfClose", "Upload", "TunnelClose", "SessionClose"))
+    ctx.spec_must_hold(sh)
     r = ctx.harness("c16", ["--vectors", s["out"], "--max", "600" if ctx.thorough else "120",
-                            "--vectors-icmp", si["out"], "--max-icmp", "300" if ctx.thorough else "60"], env={"VERIF_ROOT": ROOT}, timeout=3000)
+                            "--vectors-icmp", si["out"] + "," + sh["out"], "--max-icmp", "300" if ctx.thorough else "60"], env={"VERIF_ROOT": ROOT}, timeout=3000)
+    if r["counters"].get("half_close_histories", 0) < 20 and not ctx.violations:
+        raise ToolError("only %d half-close histories were executed" % r["counters"].get("half_close_histories", 0))
     if r["counters"].get("icmp_histories", 0) < 20 and not ctx.violations:
         raise ToolError("only %d ICMP histories were executed" % r["counters"].get("icmp_histories", 0))
     os.remove(s["out"])
@@ -24,7 +30,7 @@ def run(ctx):
         "traces_validated_against_impl": r["evaluations"],
         "histories_generated_by_tlc": r["counters"].get("histories_total", 0),
         "evaluations": r["evaluations"], "distinct_nontrivial": r["distinct_nontrivial"],
-        "rule": "TLC enumerates every history of <= 6 operations of Metrics.tla (session open/close over HTTP/1.1 and HTTP/2, CONNECT success and failure, uploads and downloads of 1 / 1000 / 70000 bytes, tunnel close by client or by peer, session drop; and, separately, CONNECT _icmp sessions with echo requests of 8 / 64 octets answered by two replies each from a scripted multiplexer) and checks GaugesEqualLiveObjects / ZeroWhenIdle; a seed-selected sample of the histories is executed on the real stack (tunnel door, real TcpForwarder to a loopback server) and after every operation the text Metrics::collect produces must settle on the values the specification predicts; the real metrics listener is asked GET /metrics and /health-check. Non-trivial = history contains a failed connect, a close by the peer or a session drop.",
+        "rule": "TLC enumerates every history of <= 6 operations of Metrics.tla (session open/close over HTTP/1.1 and HTTP/2, CONNECT success and failure, uploads and downloads of 1 / 1000 / 70000 bytes, tunnel close by client or by peer, half-close by the destination of an HTTP/2 tunnel that stays open for uploads, session drop; and, separately, CONNECT _icmp sessions with echo requests of 8 / 64 octets answered by two replies each from a scripted multiplexer) and checks GaugesEqualLiveObjects / ZeroWhenIdle; a seed-selected sample of the histories is executed on the real stack (tunnel door, real TcpForwarder to a loopback server) and after every operation the text Metrics::collect produces must settle on the values the specification predicts; the real metrics listener is asked GET /metrics and /health-check. Non-trivial = history contains a failed connect, a close by the peer or a session drop.",
         "samples": r["samples"][:3],
     }, assumptions=[
         "UDP socket gauge balance is checked with the UDP flow model (C07)",
